@@ -133,10 +133,10 @@ def run(prop, tier, seed, replay=None):
             if key in seen:
                 continue
             seen.add(key)
-            if len(seen) > 5:
+            if len(seen) > 3:
                 break
             try:
-                h = shrink.shrink(mod, h, budget_s=60 if tier == 'quick' else 240)
+                h = shrink.shrink(mod, h, budget_s=40 if tier == "quick" else 240)
             except Exception as e:
                 h['shrink_error'] = repr(e)
             path = core.write_replay(prop, dict(property=prop, hit=h, broken=broken[:10], tier=tier, seed=seed))
